@@ -108,6 +108,49 @@ def check(run, M, tier):
     _p2(run, M, proxes)
     _p3(run, M)
     _p4(run, M, proxes)
+    _p5(run, M, proxes)
+
+
+def _p5(run, M, proxes):
+    """P5: what the constructor is given is what _prox uses -- every parameter stored under its own name is stored unchanged (`lower or -inf` turns
+    the valid bound 0 into no bound); P6: evaluating a prox never writes its arguments (step size alpha, input) nor the stored parameters: the
+    same P(alpha, y) must give the same minimiser the next time"""
+    from ..effects import Effects
+    run.rule("P5", "Prox constructors store the parameters they keep under their own name unchanged")
+    run.rule("P6", "no _prox / thresholding function writes to its arguments (alpha, input, lamda, eps, bias) or to the stored parameters")
+    eff = Effects(M)
+    n = 0
+    for c in proxes:
+        init = M.method(c, "__init__", inherit=False)
+        if init is not None:
+            outs = [o for o in VN(M, init, real=REAL).run(init.body, State({p: T.sym(p) for p in init.params if p != "self"})) if o.status != "raise"]
+            for o in outs:
+                for p in init.params:
+                    k = "self." + p
+                    if p == "self" or k not in o.env:
+                        continue
+                    n += 1
+                    v = o.env[k]
+                    same = isinstance(v, T.Poly) and v == T.sym(p)
+                    run.check(same, "P5", "%s.__init__ self.%s[%s]" % (c.name, p, cond_text(o.conds)[:40]), init.loc(), "stored as given",
+                              "%s.__init__ stores self.%s = %s under [%s], not the `%s` it was given: the operator then evaluates the prox of a different function "
+                              "(e.g. a bound or weight that is 0 / False is replaced by a default)" % (
+                                  c.name, p, T.show(v, 120) if isinstance(v, T.Poly) else repr(v)[:80], cond_text(o.conds)[:80], p), stmt="P5:%s:%s" % (c.name, p))
+        f = M.method(c, "_prox", inherit=False)
+        if f is not None:
+            sm = eff.of(f.qual)
+            bad = sorted(p for p in sm.mut if p != "self") + sorted("self." + a for a in sm.attr_mut)
+            run.check(not bad, "P6", c.name + "._prox", f.loc(), "arguments and stored parameters are only read",
+                      "%s._prox writes to %s: %s -- an array-valued step size (PDHG passes tau / sigma arrays, Stack passes views of one) or the input is changed for the "
+                      "caller, so the next evaluation with the same arguments is no longer the minimiser" % (
+                          c.name, ", ".join(bad), "; ".join(w for r_ in sm.detail.values() for _, w in r_[:1])[:200]), stmt="P6:" + c.name)
+    for name in sorted(M.mod("sigpy.thresh").funcs if hasattr(M.mod("sigpy.thresh"), "funcs") else []):
+        pass
+    for q, f in sorted(M.funcs.items()):
+        if f.mod.name == "sigpy.thresh" and f.parent is None and f.cls is None:
+            sm = eff.of(q)
+            run.check(not sm.mut, "P6", q, f.loc(), "arguments are only read", "%s writes to its argument(s) %s" % (q, sorted(sm.mut)), stmt="P6:" + q)
+    run.floor("P5", 8, n, "stored constructor parameters")
 
 
 def _p1(run, M, base):
